@@ -184,4 +184,19 @@ CLAIMS['C04'] = {
             '(refinement argued in DESIGN, not machine-checked). KNOWN FINDING (not repaired): methods with positional-only, '
             '*args or **kwargs parameters do not receive the direct-call arguments (known_findings.json)',
 }
+CLAIMS['C16'] = {
+    'text': 'PURITY part of the property only: 14 per-method extraction steps of the OpenAPI and OpenRPC generators '
+            '(_extract_errors (OpenAPI), _extract_tags / _servers / _parameters / _security / _external_docs / _examples / '
+            '_description / _deprecated of both) are proved frame-pure: every heap cell they write belongs to an object '
+            'allocated by that very call, so neither the method annotations (the lists and dicts the user passed to '
+            'annotate()), nor the method, nor the generator object change; what they return is a new object or the '
+            'annotation object itself, unwritten.',
+    'note': 'NOT covered by any obligation: validity of the documents against the OpenAPI / OpenRPC meta-schemas, $ref '
+            'closure, completeness (every method exactly once), absence of cross-method leakage through shared component '
+            'maps, determinism of repeated generation - they depend on pydantic / dataclasses internals outside the reach '
+            'of contracts here (a native generator-level probe, replayers/c16.py, accompanies violations but is not a '
+            'check). OpenRPC._extract_errors is not under contract (allocating comprehension); one loop invariant of '
+            'OpenAPI._extract_errors (its own defaultdict holds its own lists) is assumed; schema extractors are abstract '
+            'user objects (A-user)',
+}
 NOT_CLAIMED = {}
